@@ -15,7 +15,26 @@ def _call(args):
     except BaseException as e:  # exceptions may not survive pickling (and would hang the pool): report as text
         import traceback
 
+        lib = raised_in_library(e)
+        if lib:
+            # the oracle called the library on objects the library itself had accepted, and the library raised: that is a
+            # finding about the library, not a harness error
+            return i, [(f"LIB:raised-inside-the-oracle:{type(e).__name__}:{lib}", f"{e}"[:200] + f" | case {case!r}"[:200])]
         return i, _WorkerError(f"{type(e).__name__}: {e}\n{traceback.format_exc()[-1500:]}", repr(case)[:300])
+
+
+def raised_in_library(e: BaseException):
+    """'file.py:function' when the innermost frame of the exception is pulser code of the tree under test, else None."""
+    import traceback
+
+    repo = os.environ.get("VERIF_REPO", "/repo")
+    tb = traceback.extract_tb(e.__traceback__)
+    if not tb:
+        return None
+    last = tb[-1]
+    if last.filename.startswith(repo + "/"):
+        return f"{os.path.basename(last.filename)}:{last.name}"
+    return None
 
 
 class _WorkerError:
